@@ -60,7 +60,11 @@ def events_for(tier: str) -> List[tuple]:
     ev += [("upd", "S1", "port", "same"), ("upd", "S1", "text", "new"), ("upd", "S1", "addr", "same"),
            ("upd", "S1", "ttl", "same"), ("upd", "S3", "noaddr6", "same"), ("upd", "S2", "server", "new"),
            ("upd", "S1", "subtype", "new"), ("upd", "S4", "basetype", "new")]
+    # the application changes the object it unregistered earlier and registers it again (record memos filled by the
+    # goodbyes must not survive into the new registration)
+    ev += [("rereg", "S1", "port"), ("rereg", "S1", "ttl"), ("rereg", "S3", "text")]
     if tier != "quick":
+        ev += [("rereg", "S2", "addr"), ("rereg", "S5", "port")]
         ev += [("upd", "S3", "ttl", "new"), ("upd", "S5", "port", "new"), ("upd", "S1", "server", "new"),
                ("upd", "S2", "addr", "new")]
     return ev
@@ -112,6 +116,17 @@ class Replay:
                 zc.query_handler.async_response([DNSIncoming(wire.query(qs), ("10.9.9.8", 5353), None, w.now_ms)], False)
             return
         kind, n = ev[0], ev[1]
+        if kind == "rereg":
+            if n not in self.retired or n in self.model:
+                return  # only an object that was registered and unregistered before can be changed and registered again
+            info, desc = self.retired.pop(n)
+            desc = variant(desc, ev[2])
+            mutate_info(info, desc)
+            w.run_coro(zc.async_register_service(info, cooperating_responders=True))
+            self.model[n] = desc
+            self.infos[n] = info
+            w.settle()
+            return
         if kind == "reg":
             desc = TEMPLATES[n]
             info = make_info(desc)
@@ -157,14 +172,30 @@ class Replay:
             for key, i in sorted(reg._services.items()):
                 infos.append((key, i.type, i.name, i.server, i.port, i.text, tuple(i.addresses_by_version(_ALL())),
                               i.host_ttl, i.other_ttl,
-                              tuple(getattr(i, a) is not None for a in ("_dns_address_cache", "_dns_pointer_cache",
-                                                                          "_dns_service_cache", "_dns_text_cache",
-                                                                          "_get_address_and_nsec_records_cache"))))
+                              # the record memos with their *contents*: replies are served from them, so two registries
+                              # that differ only in what a memo holds have different futures
+                              tuple(_memo(getattr(i, a)) for a in _MEMOS)))
+            # objects the application unregistered and may register again are part of the state: what they describe and
+            # what their record memos hold decides what a later registration serves
+            retired = [(n, i.type, i.name, i.server, i.port, i.text, tuple(i.addresses_by_version(_ALL())), i.host_ttl,
+                        i.other_ttl, tuple(_memo(getattr(i, a)) for a in _MEMOS))
+                       for n, (i, _d) in sorted(self.retired.items())]
             return (infos, sorted((k, tuple(v)) for k, v in reg.types.items()),
-                    sorted((k, tuple(v)) for k, v in reg.servers.items()), reg.has_entries)
+                    sorted((k, tuple(v)) for k, v in reg.servers.items()), reg.has_entries, retired)
 
         # the registry holds no instants, so a structural walk is a sound (finer) stand-in when its layout is unknown
-        return guarded(precise, lambda: generic_canon(reg, 0.0, depth=6))
+        return guarded(precise, lambda: generic_canon((reg, [i for i, _d in self.retired.values()]), 0.0, depth=7))
+
+
+_MEMOS = ("_dns_address_cache", "_dns_pointer_cache", "_dns_service_cache", "_dns_text_cache",
+          "_get_address_and_nsec_records_cache")
+
+
+def _memo(x: Any) -> Any:
+    if x is None:
+        return None
+    recs = list(x) if isinstance(x, (list, set, tuple)) else [x]
+    return sorted(repr(from_lib(r)) + f"/{r.ttl}" for r in recs)
 
 
 def _ALL() -> Any:
